@@ -265,6 +265,15 @@ def family_cases(r):
       g.define('F', 'u', [(OR, [prev, 'C'])])
       g.make('N1', 'F', [['A', 'B']])
       out.append(g)
+  for k in (2, 3):                            # the same functor applied twice, the argument behind a chain of k helpers
+    g = base('chain_%d_two_applications' % k)
+    prev = 'A'
+    for i in range(k):
+      g.define('P%d' % (i + 1), 'u', [(INC if i % 2 else DBL, [prev])])
+      prev = 'P%d' % (i + 1)
+    g.define('F', 'u', [(COPY, [prev])])
+    g.make('N1', 'F', [['A', 'B']]); g.make('N2', 'F', [['A', 'D']]); g.make('M0', 'F', [['A', 'C']])
+    out.append(g)
   g = base('diamond')
   g.define('P1', 'u', [(INC, ['A'])]); g.define('P2', 'u', [(DBL, ['A'])])
   g.define('P3', 'u', [(OR, ['P1', 'P2'])]); g.define('F', 'u', [(NOT, ['P3', 'C'])])
